@@ -47,7 +47,8 @@ def add_nfn(evs):
             if k in ("CALL", "CAS2"):
                 e["pa"] = fn
             elif fn and "." in a and k in ("R", "W", "VR", "VW", "AL", "AS", "XCHG", "RMW", "CAS"):
-                e["pa"] = fn + ":" + a.rsplit(".", 1)[1]
+                cls = "R" if k in ("R", "VR", "AL") else "W" if k in ("W", "VW", "AS") else k
+                e["pa"] = fn + ":" + a.rsplit(".", 1)[1] + ":" + cls
             else:
                 e["pa"] = ""
             e["nfn"] = nxt.get(e["t"], "")
